@@ -33,6 +33,16 @@ use shuttle::sync::{Condvar, Mutex};
 // ---------------------------------------------------------------- simulator-facing side
 pub mod sim {
     use super::*;
+    /// false (the harness's own parent / worker processes, which are not inside a shuttle
+    /// execution): every entry point degrades to plain sequential execution on the calling thread,
+    /// so that ska code called in-process (the inspector's `load`) may use rayon
+    pub static ACTIVE: AtomicBool = AtomicBool::new(false);
+    pub fn activate() {
+        ACTIVE.store(true, Ordering::SeqCst);
+    }
+    pub(crate) fn active() -> bool {
+        ACTIVE.load(Ordering::Relaxed)
+    }
     /// size of an unconfigured global pool = the simulated machine's core count
     pub static CORES: AtomicUsize = AtomicUsize::new(4);
     pub static JOINS: AtomicU64 = AtomicU64::new(0);
@@ -153,6 +163,15 @@ fn draw(n: usize) -> usize {
 }
 
 impl Pool {
+    /// a pool without workers for the non-simulated (inline) mode
+    fn inline(n: usize) -> Arc<Pool> {
+        Arc::new(Pool {
+            n,
+            st: Mutex::new(PoolState { deques: vec![], injected: VecDeque::new(), terminate: true }),
+            cv: Condvar::new(),
+            handles: std::sync::Mutex::new(Vec::new()),
+        })
+    }
     fn new(n: usize) -> Arc<Pool> {
         let n = if n == 0 {
             sim::CORES.load(Ordering::Relaxed).max(1)
@@ -178,6 +197,9 @@ impl Pool {
         p
     }
     fn terminate(&self) {
+        if !sim::active() {
+            return;
+        }
         {
             let mut st = self.st.lock().unwrap();
             st.terminate = true;
@@ -214,6 +236,8 @@ impl Pool {
     }
     /// run a job taken from a queue and publish its latch under the pool lock
     fn execute(&self, j: JobRef, stolen: bool) {
+        // a job taken from a queue need not start at once
+        shuttle::thread::yield_now();
         unsafe { (j.exec)(j.ptr, stolen) };
         let _g = self.st.lock().unwrap();
         self.cv.notify_all();
@@ -324,6 +348,11 @@ where
     RA: Send,
     RB: Send,
 {
+    if !sim::active() {
+        let ra = a(FnContext::new(false));
+        let rb = b(FnContext::new(false));
+        return (ra, rb);
+    }
     let pool = current_or_global();
     in_pool(&pool.clone(), move |injected| join_on_worker(a, b, injected))
 }
@@ -343,6 +372,9 @@ where
         st.deques[idx].push_back(job_b.as_job_ref());
         pool.cv.notify_all();
     }
+    // a real thief can take `b` and even finish it before `a` has started: without this switch
+    // point a leaf that contains no synchronisation would always complete before its stolen sibling
+    shuttle::thread::yield_now();
     let ra = catch_unwind(AssertUnwindSafe(|| a(FnContext::new(injected))));
     // wait for b: pop local jobs (b itself if nobody stole it), else steal / injector, else sleep
     loop {
@@ -384,9 +416,15 @@ pub fn max_num_threads() -> usize {
     65535
 }
 pub fn current_num_threads() -> usize {
+    if !sim::active() {
+        return 1;
+    }
     current_or_global().n
 }
 pub fn current_thread_index() -> Option<usize> {
+    if !sim::active() {
+        return None;
+    }
     ctx().map(|(_, i)| i)
 }
 pub fn current_thread_has_pending_tasks() -> Option<bool> {
@@ -537,11 +575,22 @@ impl ThreadPoolBuilder {
         self
     }
     pub fn build(self) -> Result<ThreadPool, ThreadPoolBuildError> {
+        if !sim::active() {
+            return Ok(ThreadPool { pool: Pool::inline(self.num_threads.max(1)) });
+        }
         Ok(ThreadPool {
             pool: Pool::new(self.num_threads),
         })
     }
     pub fn build_global(self) -> Result<(), ThreadPoolBuildError> {
+        if !sim::active() {
+            let mut g = GLOBAL.lock().unwrap();
+            if g.is_some() {
+                return Err(ThreadPoolBuildError { kind: ErrorKind::GlobalPoolAlreadyInitialized });
+            }
+            *g = Some(Pool::inline(self.num_threads.max(1)));
+            return Ok(());
+        }
         let mut g = GLOBAL.lock().unwrap();
         if g.is_some() {
             sim::BUILD_GLOBAL_REFUSED.fetch_add(1, Ordering::Relaxed);
@@ -572,6 +621,9 @@ impl ThreadPool {
         OP: FnOnce() -> R + Send,
         R: Send,
     {
+        if !sim::active() {
+            return op();
+        }
         in_pool(&self.pool, |_| op())
     }
     pub fn current_num_threads(&self) -> usize {
